@@ -68,6 +68,8 @@ class Disk:
 
 
 def model_trajectory(world, have_cell=True):
+    if getattr(world, "pdb", False):
+        return world.traj(have_cell)
     t = Obj(tag="trajectory", xyz=world.x, _xyz=world.x, n_frames=world.n, n_atoms=world.n_atoms, top=world.top, topology=world.top, _topology=world.top, time=world.t, _time=world.t,
             unitcell_lengths=world.L if have_cell else None, unitcell_angles=world.A if have_cell else None, unitcell_vectors=world.B if have_cell else None,
             _unitcell_lengths=world.L if have_cell else None, _unitcell_angles=world.A if have_cell else None, _have_unitcell=have_cell, _lenient=True)
@@ -94,12 +96,34 @@ def evaluator(ctx, rel, disk, root, made):
                                         "_parse_topology": lambda ev, c: ev.ex(c.args[0]), "cast_indices": lambda ev, c: ev.ex(c.args[0]),
                                         "ensure_type": lambda ev, c: ev.ex(c.args[0]), "str": lambda ev, c: "S", "warnings.warn": lambda ev, c: None,
                                         "os.path.exists": lambda ev, c: disk.exists(ev.ex(c.args[0])), "md.Topology": mktop, "Topology": mktop}, parent=root)
+    if rel == W.PDB:
+        # the PDB reader builds a PdbStructure (classes of pdbstructure.py, nested ones included) and writes with print(..., file=)
+        smod = ctx.py.mod(W.PDBS)
+        for n in smod.tree.body:
+            if isinstance(n, ast.ClassDef):
+                classes[n.name] = n
+                for b in n.body:
+                    if isinstance(b, ast.ClassDef):
+                        classes[n.name + "." + b.name] = b
+        ts.funcs = dict({q: f for q, f in smod.functions.items() if "." not in q}, **ts.funcs)
+
+        def prn(ev, call):
+            dest = next((ev.ex(k_.value) for k_ in call.keywords if k_.arg == "file"), None)
+            if isinstance(dest, Obj) and callable(getattr(dest, "write", None)):
+                for a_ in call.args:
+                    dest.write(ev.ex(a_))
+                dest.write("\n")
+        ts.models = dict(ts.models, **{"print": prn, "ilen": lambda ev, c: len(ev.iterate(ev.ex(c.args[0]))), "_is_url": lambda ev, c: False})
     ts.classes = classes
     ts.assume = W.assume
     ts.module_env = {"Trajectory": Obj(_distance_unit="nanometers"), "mdtraj": Obj(__version__="V", version=Obj(version="V")), "date": Obj(today=lambda: "D"),
                      "os": Obj(PathLike="PathLike", path=Obj(exists=lambda p: disk.exists(p))),
                      "pdb": Obj(PDBTrajectoryFile=Obj(_residueNameReplacements={}, _atomNameReplacements={}, _loadNameReplacementTables=lambda: None)),
                      "elem": Obj(get_by_symbol=lambda s_: Obj(tag="element", symbol=s_), virtual=Obj(tag="element", symbol="VS"))}
+    if rel == W.PDB:
+        ts.module_env.update({"element": Obj(get_by_symbol=lambda s_: Obj(tag="element", symbol=s_), hydrogen=Obj(tag="element", symbol="H")),
+                              "sys": Obj(stdout=None), "warnings": Obj(warn=lambda *a_, **k_: None),
+                              "PDBTrajectoryFile": Obj(_residueNameReplacements={}, _atomNameReplacements={}, _loadNameReplacementTables=lambda: None, _guess_element=lambda *a_: None)})
     return ts
 
 
@@ -121,3 +145,22 @@ def save_and_load(ctx, key, world, have_cell=True, load_kwargs=None, save_kwargs
     given.update(load_kwargs or {})
     ret = ts.run_fn(loader, **given)
     return T.flatten(disk.files.get("FILE", [])), (ret if isinstance(ret, Obj) else (made[-1] if made else None))
+
+
+class PdbWorld:
+    """two frames of a two-chain system for the PDB path (positions x[f,a,k], one cell per frame)"""
+    pdb = True
+
+    def __init__(self, n_frames=2):
+        self.top = W.pdb_topology([("A", [("ALA", 5, [("N", "N"), ("CA", "C")]), ("GLY", 6, [("C", "C")])]), ("", [("HOH", 1, [("O", "O")])])])
+        self.n, self.n_atoms = n_frames, len(self.top.atoms)
+        self.x = Ten.sym("x", (n_frames, self.n_atoms, 3))
+        self.L = Ten.sym("L", (n_frames, 3))
+        self.A = Ten.sym("A", (n_frames, 3))
+        self.t = None
+
+    def traj(self, have_cell):
+        t = Obj(tag="trajectory", xyz=self.x, _xyz=self.x, n_frames=self.n, n_atoms=self.n_atoms, top=self.top, topology=self.top, _topology=self.top,
+                unitcell_lengths=self.L if have_cell else None, unitcell_angles=self.A if have_cell else None, _have_unitcell=have_cell, _lenient=True)
+        t._check_valid_unitcell = lambda: None
+        return t
